@@ -329,7 +329,7 @@ def _b_programs(info, r, n):
     for _ in range(n):
         nthreads = r.choice([2, 2, 3])
         buffered = info.buffered and r.random() < 0.7
-        shared_repoint = r.random() < 0.2
+        shared_repoint = r.random() < 0.5
         threads = []
         for t in range(nthreads):
             steps = []
